@@ -120,7 +120,7 @@ def funnel_record(events, res):
     return {"steps": steps, "final": {"fam": fam, "line": getattr(res, "line", None) or 0, "path": pid(getattr(res, "path", None))}}
 
 def read_text(text, extra_files=None, want_trace=False):
-    if unbounded(text):
+    if unbounded(text if isinstance(text, str) else text.decode("utf8", "replace")):
         return ("skipped", None, None) if want_trace else ("skipped", None)
     files = dict(fs.DEP_FILES)
     files["ns/A.1.0.dsdl"] = text
@@ -161,6 +161,8 @@ CORNERS = ["@assert (-8) ** (1/3) == -2", "@print (10**400) ** 0.5", "@print '\\
            "ns.Svc.1.0 s", "ns.Svc.1.0[2] s", "@union\nns.Svc.1.0 a\nuint8 b", "@print ns.Svc.1.0._bit_length_", "ns.A.1.0 selfref",
            "uint8 a\nuint8 a", "uint8 truncated", "@assert", "@print", "@extent", "@sealed 1", "@union 1", "@deprecated 1", "---\n---",
            "@print " + "(" * 12 + "1" + ")" * 12, "@print " + "-" * 1 + "(" + "-(" * 10 + "1" + ")" * 10 + ")", "@print " + "{" * 10 + "1" + "}" * 10,
+           "ns.Svc.1.0 s\n@print _offset_", "uint8 a\nns.Svc.1.0 s\n@assert _offset_ % 8 == {0}", "@union\nuint8 a\nns.Svc.1.0 s\n@print _offset_",
+           "ns.Svc.1.0[<=2] s\n@print _offset_", "@print ns.Svc.1.0", "@print {ns.Svc.1.0}", "@assert ns.Svc.1.0 == ns.Svc.1.0",
            "@print 2 ** 2 ** 2 ** 2", "@print 1" + "0" * 400, "uint8 " + "a" * 3000, "@print '" + "x" * 5000 + "'", "# " + "c" * 10000]
 
 @core.safe
@@ -196,6 +198,10 @@ def noise_worker(arg):
             text.encode("utf8")
         except UnicodeEncodeError:
             continue
+        if rng.random() < 0.15:      # the file need not even be text: bytes that are not valid UTF-8 at a random place
+            raw = text.encode("utf8")
+            pos = rng.randrange(len(raw) + 1)
+            text = raw[:pos] + rng.choice([b"\xff", b"\xfe\xff", b"\xc3", b"\xe2\x82", b"\xf0\x9f\x98", b"\x80", b"\xed\xa0\x80", b"\xc0\xaf"]) + raw[pos:]
         status, res = read_text(text)
         if status == "skipped":
             continue
@@ -212,7 +218,10 @@ FILE_NAMES = ["T.1.dsdl", "1.2.T.1.0.dsdl", "T.a.0.dsdl", "x.T.1.0.dsdl", ".1.0.
               "²³.Bad.1.0.dsdl", "7⁵.Bad.1.0.dsdl", "①.Bad.1.0.dsdl", "Bad.١.0.dsdl", "Bad.1.².dsdl", "é.1.0.dsdl",
               "Bad.1.0.DSDL", "Bad.1.0.dsdl.dsdl", "..dsdl", "...dsdl", "Bad.999999999999999999999.0.dsdl", "99999999999999999999.Bad.1.0.dsdl",
               "Bad.1.0.uavcan", "1e3.Bad.1.0.dsdl", "0x10.Bad.1.0.dsdl", " .Bad.1.0.dsdl", "Bad.256.0.dsdl", "Bad.0.0.dsdl", "uint8.1.0.dsdl",
-              "sub dir/Ok.1.0.dsdl", "sub.dir/Ok.1.0.dsdl", "9sub/Ok.1.0.dsdl", "dir.dsdl/Ok.1.0.dsdl"]
+              "sub dir/Ok.1.0.dsdl", "sub.dir/Ok.1.0.dsdl", "9sub/Ok.1.0.dsdl", "dir.dsdl/Ok.1.0.dsdl",
+              # entries that are named like definitions but are not regular readable files
+              "DIR:Empty.1.0.dsdl", "DIR:sub/Empty.1.0.uavcan", "LINK-DANGLING:Dangling.1.0.dsdl", "LINK-LOOP:Loop.1.0.dsdl",
+              "LINK-DIR:LinkToDir.1.0.dsdl"]
 DUPLICATES = [({"ns/A.1.0.dsdl": "@sealed\n", "ns/7000.A.1.0.dsdl": "uint8 a\n@sealed\n"}, "same name+version, different bodies"),
               ({"ns/A.1.0.dsdl": "@sealed\n", "ns/A.1.0.uavcan": "uint8 a\n@sealed\n"}, ".dsdl and .uavcan, different bodies"),
               ({"ns/A.1.0.dsdl": "@sealed\n", "ns/A.01.0.dsdl": "uint8 a\n@sealed\n"}, "A.1.0 and A.01.0"),
@@ -224,12 +233,30 @@ DUPLICATES = [({"ns/A.1.0.dsdl": "@sealed\n", "ns/7000.A.1.0.dsdl": "uint8 a\n@s
 def filename_worker(arg):
     import pydsdl
     kind, item = arg
+    special = None
     if kind == "name":
-        files = {"ns/" + item: "@sealed\n", "ns/Fine.1.0.dsdl": "@sealed\n"}
+        if ":" in item and item.split(":")[0].isupper():
+            special, item2 = item.split(":", 1)
+            files = {"ns/Fine.1.0.dsdl": "@sealed\n"}
+        else:
+            files = {"ns/" + item: "@sealed\n", "ns/Fine.1.0.dsdl": "@sealed\n"}
         label = item
     else:
         files, label = item
     with dsdlio.Tree(files, "c13f") as tr:
+        if special:
+            import os
+            p = tr.path("ns/" + item2)
+            os.makedirs(os.path.dirname(p), exist_ok=True)
+            if special == "DIR":
+                os.makedirs(p)
+            elif special == "LINK-DANGLING":
+                os.symlink(tr.path("ns/nowhere.dsdl"), p)
+            elif special == "LINK-LOOP":
+                os.symlink(p, p)
+            elif special == "LINK-DIR":
+                os.makedirs(tr.path("elsewhere"))
+                os.symlink(tr.path("elsewhere"), p)
         status, res, _ = dsdlio.read_ns(tr.path("ns"), allow_unregulated=True)
     r = {"nt": True, "key": core.jhash(label)}
     if status == "err" and not isinstance(res, pydsdl.InvalidDefinitionError):
@@ -294,7 +321,7 @@ def run(ctx):
                 "mutations; each text is read: model or InvalidDefinitionError with a path. Every state of Expr.tla's operator x operand-kind grid "
                 "(17 binary, 3 unary, 4 attribute operators x 20 operand kinds incl. data types and sets of sets / types) is "
                 "placed in five expression contexts (@print, constant, capacity, @assert, @extent). 45 corner texts, seeded character "
-                "noise incl. control characters, 31 file-name shapes and 6 duplicate / case-variant file sets are added. "
+                "noise incl. control characters and byte sequences that are not UTF-8, 36 file-name shapes (incl. directories and dangling / looping links named like definitions) and 6 duplicate / case-variant file sets are added. "
                 "Non-trivial = input that is rejected; distinct by hash of the mutation list / text")
     ctx.assumptions = ["nesting is bounded at 12 levels, exponents are small (towers such as 2**2**2**2**2**2 do not terminate "
                        "in reasonable time and are outside the statement's bounded magnitude)", "all Unicode strings are sampled, not "
